@@ -110,3 +110,159 @@ Print Assumptions C01_nonvacuous.
 Theorem C01_inconsistent_rejected : skeleton_consistentb ex_reg_bad ex_settings = false.
 Proof. exact ex_bad_inconsistent. Qed.
 Print Assumptions C01_inconsistent_rejected.
+
+(** ** the byte-level sentence (definitions: Model/Codec.v)
+
+    [decode P sh] / [encode P sh] are defined by recursion on the SHAPE only (neither the
+    registry nor the generated items occur in Model/Codec.v), over abstract primitive
+    codecs [P : prims pv bv ov] (fixed-width primitives, compact integers, the sequence
+    length prefix, bit sequences, external types).  Every theorem below quantifies over
+    ALL value types [pv bv ov] and ALL primitive codecs [P] that satisfy the round-trip
+    hypotheses [prims_ok P] (for the depth transfer also [prims_mono P]: an external
+    decoder accepts more when the decoders of its arguments do; for the converse direction
+    [prims_rev P]: the primitive encodings are self-delimiting).  That this abstract codec
+    is what parity-scale-codec's derive does on the emitted items is validated by the
+    thorough compile tier, not proved. *)
+From V Require Import Model.Codec Model.CodecInstance Model.CodecExample
+  Proofs.CodecProofs Proofs.CodecInstanceProofs Proofs.CodecExamples.
+
+(** whatever the decoder of a shape accepts re-encodes, with the encoder of the same shape,
+    to exactly the bytes consumed *)
+Theorem C01_decode_encode :
+  forall (pv bv ov : Type) (P : prims pv bv ov),
+    prims_ok P ->
+    forall sh b v rest,
+      decode P sh b = Some (v, rest) -> exists e, encode P sh v = Some e /\ e ++ rest = b.
+Proof. exact (@decode_encode). Qed.
+Print Assumptions C01_decode_encode.
+
+(** conversely (under the converse hypotheses [prims_rev P]: the primitive encodings are
+    self-delimiting) what the encoder of a shape produces, followed by anything, decodes with
+    the decoder of the same shape to the value encoded and hands the rest back *)
+Theorem C01_encode_decode :
+  forall (pv bv ov : Type) (P : prims pv bv ov),
+    prims_rev P ->
+    forall sh v bs rest,
+      encode P sh v = Some bs -> decode P sh (bs ++ rest) = Some (v, rest).
+Proof. exact (@encode_decode). Qed.
+Print Assumptions C01_encode_decode.
+
+(** the codec is a function of the shape: equal shapes, same decoder and same encoder *)
+Theorem C01_codec_depends_on_shape :
+  forall (pv bv ov : Type) (P : prims pv bv ov) sh1 sh2,
+    sh1 = sh2 -> decode P sh1 = decode P sh2 /\ encode P sh1 = encode P sh2.
+Proof. exact (@codec_depends_on_shape). Qed.
+Print Assumptions C01_codec_depends_on_shape.
+
+(** monotonicity in the unfolding depth: [refines a a'] = [a'] is [a] with some [SCut]
+    leaves unfolded further; a result obtained on [a] (no [SCut] was hit) is the result on
+    [a'], and the depth-n registry reading refines to the depth-(n + k) reading *)
+Theorem C01_decode_refines :
+  forall (pv bv ov : Type) (P : prims pv bv ov),
+    prims_mono P ->
+    forall sh sh' b x, refines sh sh' -> decode P sh b = Some x -> decode P sh' b = Some x.
+Proof. exact (@decode_refines). Qed.
+Print Assumptions C01_decode_refines.
+
+Theorem C01_shape_reg_refines :
+  forall r s n k id, refines (shape_reg r s n id) (shape_reg r s (n + k) id).
+Proof. exact shape_reg_refines. Qed.
+Print Assumptions C01_shape_reg_refines.
+
+(** "every byte string that is a valid encoding of the registry type decodes with the
+    generated type, consumes all input and re-encodes to the same bytes": under the
+    hypotheses of [C01_fidelity], for every id, the type expression [t] named for it, every
+    depth n and every byte string b that the registry reading of the id (to depth n)
+    decodes completely to a value v, the generated type (read to the same depth) decodes b
+    completely to the same v, and encodes v to b *)
+Theorem C01_decode :
+  forall (pv bv ov : Type) (P : prims pv bv ov) r s teq m,
+    prims_ok P ->
+    skeleton_consistent r s -> root_fresh s -> generate r s teq = Ok m ->
+    forall id t n b v,
+      resolve_type_path r s id = Ok t ->
+      decode P (shape_reg r s n id) b = Some (v, []) ->
+      decode P (shape_rust m s n t) b = Some (v, []) /\
+      encode P (shape_rust m s n t) v = Some b.
+Proof. exact (@generate_decode). Qed.
+Print Assumptions C01_decode.
+
+(** the same with trailing input: same value, same remainder, and the re-encoding is the
+    consumed prefix *)
+Theorem C01_decode_rest :
+  forall (pv bv ov : Type) (P : prims pv bv ov) r s teq m,
+    prims_ok P ->
+    skeleton_consistent r s -> root_fresh s -> generate r s teq = Ok m ->
+    forall id t n b v rest,
+      resolve_type_path r s id = Ok t ->
+      decode P (shape_reg r s n id) b = Some (v, rest) ->
+      decode P (shape_rust m s n t) b = Some (v, rest) /\
+      exists e, encode P (shape_rust m s n t) v = Some e /\ e ++ rest = b.
+Proof. exact (@generate_decode_rest). Qed.
+Print Assumptions C01_decode_rest.
+
+(** the depth is immaterial: a byte string accepted at depth n is accepted with the same
+    result at every depth n + k, by the registry reading and by the generated type ("valid
+    encoding of the registry type" = accepted at SOME depth = accepted at all greater ones) *)
+Theorem C01_decode_deeper :
+  forall (pv bv ov : Type) (P : prims pv bv ov) r s teq m,
+    prims_ok P -> prims_mono P ->
+    skeleton_consistent r s -> root_fresh s -> generate r s teq = Ok m ->
+    forall id t n k b v rest,
+      resolve_type_path r s id = Ok t ->
+      decode P (shape_reg r s n id) b = Some (v, rest) ->
+      decode P (shape_reg r s (n + k) id) b = Some (v, rest) /\
+      decode P (shape_rust m s (n + k) t) b = Some (v, rest) /\
+      exists e, encode P (shape_rust m s (n + k) t) v = Some e /\ e ++ rest = b.
+Proof. exact (@generate_decode_deeper). Qed.
+Print Assumptions C01_decode_deeper.
+
+(** the other reading of "valid encoding" - the bytes the registry reading ENCODES a value
+    to: the generated type decodes them completely to that value and encodes it to them *)
+Theorem C01_encode :
+  forall (pv bv ov : Type) (P : prims pv bv ov) r s teq m,
+    prims_rev P ->
+    skeleton_consistent r s -> root_fresh s -> generate r s teq = Ok m ->
+    forall id t n b v,
+      resolve_type_path r s id = Ok t ->
+      encode P (shape_reg r s n id) v = Some b ->
+      decode P (shape_rust m s n t) b = Some (v, []) /\
+      encode P (shape_rust m s n t) v = Some b.
+Proof. exact (@generate_encode). Qed.
+Print Assumptions C01_encode.
+
+(** the hypotheses on the primitive codecs are satisfiable: the little-endian / SCALE
+    compact instance of Model/CodecInstance.v *)
+Theorem C01_codec_instance : prims_ok iprims /\ prims_mono iprims /\ prims_rev iprims.
+Proof. exact (conj iprims_ok (conj iprims_mono iprims_rev)). Qed.
+Print Assumptions C01_codec_instance.
+
+(** real bytes (finite computation): on the registry of Model/CodecExample.v (a struct with a
+    u8, a compact u32, a Vec<u16>, an enum field and an Option<u16>) the 17 bytes
+    07 | B1 04 | 08 0100 0201 | 05 C2450400 01 | 01 0102 decode with the registry reading,
+    decode with the generated type [types::a::S] to the same value consuming all input, and
+    re-encode to the same bytes; with trailing input, at a greater depth, at an insufficient
+    depth, truncated, with an unknown variant index *)
+Theorem C01_decode_example :
+  skeleton_consistent cx_reg cx_settings /\ root_fresh cx_settings /\
+  generate cx_reg cx_settings (Equal.types_equal cx_reg) = Ok cx_items /\
+  resolve_type_path cx_reg cx_settings 7 = Ok (cx_path 7) /\
+  cx_bytes = [7; 177; 4; 8; 1; 0; 2; 1; 5; 194; 69; 4; 0; 1; 1; 1; 2]%N /\
+  cx_value = VStruct [VPrim 7; VPrim 300; VSeq [VPrim 1; VPrim 258];
+                      VEnum 5 [VPrim 70000; VPrim 1]; VEnum 1 [VPrim 513]]%N /\
+  decode iprims (shape_reg cx_reg cx_settings 4 7) cx_bytes = Some (cx_value, []) /\
+  decode iprims (shape_rust cx_items cx_settings 4 (cx_path 7)) cx_bytes = Some (cx_value, []) /\
+  encode iprims (shape_rust cx_items cx_settings 4 (cx_path 7)) cx_value = Some cx_bytes /\
+  decode iprims (shape_reg cx_reg cx_settings 4 7) (cx_bytes ++ [9; 9]%N) = Some (cx_value, [9; 9]%N) /\
+  decode iprims (shape_rust cx_items cx_settings 9 (cx_path 7)) cx_bytes = Some (cx_value, []) /\
+  decode iprims (shape_reg cx_reg cx_settings 2 7) cx_bytes = None /\
+  decode iprims (shape_reg cx_reg cx_settings 4 7) (removelast cx_bytes) = None /\
+  decode iprims (shape_reg cx_reg cx_settings 4 5) [1; 0]%N = None.
+Proof.
+  refine (conj cx_skeleton_consistent (conj cx_root_fresh (conj (proj1 cx_generate_ok)
+          (conj (proj1 cx_resolve_struct) (conj eq_refl (conj eq_refl (conj cx_decode_reg
+          (conj cx_decode_rust (conj cx_encode_rust _))))))))).
+  destruct cx_more as (H1 & H2 & H3 & H4 & H5 & _).
+  exact (conj H1 (conj H2 (conj H3 (conj H4 H5)))).
+Qed.
+Print Assumptions C01_decode_example.
